@@ -121,7 +121,12 @@ func (pat Pattern) match(s string, start int, cap *Captures, fixed bool) bool {
 			if matched {
 				return true // finished exploring alternatives
 			}
-			if len(prefix) > 0 {
+			if fixed {
+				// must match at start, so don't skip ahead to the prefix
+				if !strings.HasPrefix(s[si:], prefix) {
+					return false
+				}
+			} else if len(prefix) > 0 {
 				i := strings.Index(s[si:], prefix)
 				if i < 0 {
 					return false
@@ -130,7 +135,7 @@ func (pat Pattern) match(s string, start int, cap *Captures, fixed bool) bool {
 				si += i
 			}
 		}
-		if !matched {
+		if !matched && (!fixed || si == start) {
 			if cap2 != nil {
 				cap2[0] = int32(si) // Save 0
 			}
